@@ -255,6 +255,10 @@ func newL2WorldOpt(r *core.Run, p *l2Profile, fixedBridge uint64, bases []string
 		}
 	}
 	gen := opchildtypes.DefaultGenesisState()
+	if r.Chance(1, 6) {
+		// a genesis built without the defaults leaves both sequence fields at 0, which means "start at 1"
+		gen.NextL1Sequence, gen.NextL2Sequence = 0, 0
+	}
 	hookGas := []uint64{0, 60_000, 1_000_000, 3_000_000}[r.Weighted([]int{1, 1, 6, 2})]
 	gen.Params = opchildtypes.NewParams(w.admin, w.executors, uint32(ng+r.Intn(4)), uint32(r.Intn(5)), sdk.NewDecCoins(), nil, hookGas)
 	if p.WhaleFees && r.Chance(1, 2) {
